@@ -606,7 +606,25 @@ class VTimeModule:
             return time.time_ns()
         return c.time_ns()
 
+    # the monotonic clocks count from an arbitrary origin (here: the process start, about two days of uptime before the
+    # harness epoch), never from 1970: a value read from one of them is not comparable with time()/time_ns()
+    _MONOTONIC_ORIGIN_NS = 172_800 * 10**9
+
+    @staticmethod
+    def perf_counter_ns():
+        c = current_clock()
+        if c is None:
+            import time
+            return time.perf_counter_ns()
+        return c.time_ns() - EPOCH_US * 1000 + VTimeModule._MONOTONIC_ORIGIN_NS
+
     @staticmethod
     def perf_counter():
-        import time
-        return time.perf_counter()
+        c = current_clock()
+        if c is None:
+            import time
+            return time.perf_counter()
+        return VTimeModule.perf_counter_ns() / 10**9
+
+    monotonic = perf_counter
+    monotonic_ns = perf_counter_ns
